@@ -402,7 +402,7 @@ def coop_burst(rng):
     policy = rng.choice([1, 2, 2, 3])
     delays = [0] * L
     for _ in range(rng.choice([0, 0, 1, 2])):
-        delays[rng.choice([127, 128, 129, 130, rng.randrange(L)])] = rng.choice([1, 3, FLAG + 500000])
+        delays[min(L - 1, rng.choice([127, 128, 129, 130, rng.randrange(L)]))] = rng.choice([1, 3, FLAG + 500000])
     has_max = rng.choice([0, 0, 1])
     mx = rng.choice([L + 50, 400, 200, 129, 128, 127])
     reqs = []
